@@ -70,7 +70,10 @@ CONST = {
 KEYS = ['_nodes_from', 'content', 'uid', '_nodes', '_postprocess_nodes', 'operator', 'name', 'params', 'fitness',
         'graph', 'metadata', 'native_generation', 'parent_operator', 'operators', 'parent_individuals', 'type_',
         '_values', '_weights', 'wvalues', 'extra', 'three', 'computation_time_in_seconds', 'evaluation',
-        'scaling', 'mutation', 'crossover', 'single_add', 'single_drop', 'one_point', 'subtree', 'selection']
+        'scaling', 'mutation', 'crossover', 'single_add', 'single_drop', 'one_point', 'subtree', 'selection',
+        '', 'a', 'b', 'c', 'op', 'n', 'x y', '7', '0', '3', '-12', '1050', 'True', 'None', 'two', 'x', 'y', 'z', 'q', 'k', 'm',
+        'w', 'lr', 'depth', 'flag', 'note', 'ok', 'dup', 'nobody', 'nobody-else', 'simple', 'm1', 'm2', 'p'] + \
+    ['n%d' % i for i in range(8)] + ['FRESH%d' % i for i in range(4)]
 for _i, _k in enumerate(KEYS):
     CONST[_k] = 'k%d_' % _i
 PRE_BASE = ('From GolemV Require Import Serial.Json.\nLocal Open Scope nat_scope.\n' +
@@ -80,15 +83,29 @@ PRE_BASE = ('From GolemV Require Import Serial.Json.\nLocal Open Scope nat_scope
 GLOBAL = {}      # json.dumps(value) -> name of a Coq constant holding the value (pools of params / metadata)
 
 
+CUR = [None]
+
+
+def eval_cases(ctx, group, fn, cases, k, per_shard=100, parallel=6):
+    """coqc elaborates a case list in super-linear time: small shards, a few at a time"""
+    out = []
+    step = per_shard * parallel
+    for i in range(0, len(cases), step):
+        out.extend(ctx.coq_cases(group, REQ, fn, cases[i:i + step], k, shard=per_shard, preamble=PRE))
+    return out
+
+
 class Em:
-    """collects `let` bindings for sub-terms that occur more than once in a case"""
+    """collects `let` bindings for sub-terms that occur more than once in a case (every string
+    literal is bound once: interpreting a string literal is the most expensive step for coqc)"""
 
     def __init__(self):
         self.names = {}
         self.order = []
+        CUR[0] = self
 
-    def sh(self, term):
-        if len(term) <= 28:
+    def sh(self, term, always=False):
+        if len(term) <= 28 and not always:
             return term
         name = self.names.get(term)
         if name is None:
@@ -102,7 +119,7 @@ class Em:
 
 
 def cs(s):
-    return CONST.get(s) or c_str(s)
+    return CONST.get(s) or CUR[0].sh(c_str(s), always=True)
 
 
 NODE_KEYS = ['_nodes_from', 'content', 'uid', '_class_path']
@@ -415,7 +432,7 @@ def run_graphs(ctx):
     h, o = observe_graph(cspec)
     cases.append(graph_case(cspec, h, o, tamper=True))
     ctx.canaries += 1
-    res = ctx.coq_cases('graphs', REQ, FN_GRAPH, cases, K_GRAPH, shard=max(300, len(cases) // 6 + 1), preamble=PRE)
+    res = eval_cases(ctx, 'graphs', FN_GRAPH, cases, K_GRAPH)
     if not res[-1][0]:
         ctx.canaries_caught += 1
     seen_samples = 0
@@ -616,7 +633,7 @@ def _make_pre():
     defs = []
     pool = [p for p in PARAMS if p] + [m for m in METADATA if m] + [[1, 'two', {'three': 3.5}]]
     em = Em()
-    em.sh = lambda t: t          # no sharing inside the constants
+    em.sh = lambda t, always=False: t          # no sharing inside the constants
     for i, v in enumerate(pool):
         defs.append('Definition g%d_ : json := %s.' % (i, c_json(v, em)))
     for i, v in enumerate(pool):
@@ -680,7 +697,7 @@ def run_individuals(ctx):
     h, term, o = observe_individual(specs[0], False)
     cases.append(ind_case(specs[0], h, term, o, tamper=True))
     ctx.canaries += 1
-    res = ctx.coq_cases('individuals', REQ, FN_IND, cases, K_IND, shard=max(300, len(cases) // 6 + 1), preamble=PRE)
+    res = eval_cases(ctx, 'individuals', FN_IND, cases, K_IND)
     if not res[-1][0]:
         ctx.canaries_caught += 1
     sampled = 0
@@ -794,7 +811,7 @@ def run_json_load(ctx):
     fn = ('fun c => match c with (j, frag, g, rs) => [match load_graph [] j, frag with '
           '| Ok (h, g1), Some f => heap_eqb h f && graph_eqb g1 g && res_json_eqb (fst (save_graph h g1)) rs '
           '| Raise Unmodelled, _ => false | Raise _, None => true | _, _ => false end] end')
-    res = ctx.coq_cases('json-load', REQ, fn, cases, 1, shard=max(300, len(cases) // 4 + 1), preamble=PRE)
+    res = eval_cases(ctx, 'json-load', fn, cases, 1)
     if not res[-1][0]:
         ctx.canaries_caught += 1
     for (what, spec, t, loaded), r in zip(meta, res[:-1]):
@@ -1052,7 +1069,7 @@ def run_lockstep(ctx):
             cases.append(lock_case(vo, vl, steps, tamper=True))
             ctx.canaries += 1
             break
-    res = ctx.coq_cases('lockstep', REQ, FN_LOCK, cases, 2, shard=max(150, len(cases) // 6 + 1), preamble=PRE)
+    res = eval_cases(ctx, 'lockstep', FN_LOCK, cases, 2, per_shard=60)
     if len(res) > len(meta) and not res[-1][1]:
         ctx.canaries_caught += 1
     sampled = 0
